@@ -22,6 +22,9 @@ def run(ctx):
     search_checks.suite(ctx, PID, {'optimal', 'monotone'},
                         [dict(max_n=mx), dict(max_n=mx, beam=True), dict(max_n=mx, multi=True), dict(max_n=4, mixed_heads=True)],
                         n, max_n_enum=mx)
+    # the real English / Japanese rule functions and unary tables, through the real depccg.parsing.run
+    import glue_checks
+    glue_checks.real_grammar_suite(ctx, {'optimal', 'valid', 'score', 'labels'}, ctx.budget(150, 1500))
     common.conclude(ctx)
 
 
